@@ -41,7 +41,11 @@ def gen_value(rng, depth=3, alias=False):
 
 def gen_container(rng, kind, depth=3, alias=False):
     if kind == 'list':
-        return [gen_value(rng, depth - 1, alias) for _ in range(rng.choice([0, 1, 2, 3, 4, 6]))]
+        out = [gen_value(rng, depth - 1, alias) for _ in range(rng.choice([0, 1, 2, 3, 4, 6]))]
+        if out and rng.random() < 0.15:
+            x = rng.choice(out)
+            out.insert(rng.randrange(len(out) + 1), str(x) if not isinstance(x, str) else [x])
+        return out
     if kind == 'dict':
         return {k: gen_value(rng, depth - 1, alias) for k in rng.sample(KEYS, rng.choice([0, 1, 2, 3, 4]))}
     return gen_string(rng)
@@ -57,8 +61,12 @@ def mutate(rng, v, depth=3, alias=False):
                 del v[rng.randrange(len(v))]
             elif r < 0.6:
                 v.insert(rng.randrange(len(v) + 1), gen_value(rng, depth - 1, alias))
-            elif r < 0.7 and v:
+            elif r < 0.66 and v:
                 v.insert(rng.randrange(len(v) + 1), copy.deepcopy(rng.choice(v)))
+            elif r < 0.72 and v:
+                # an item next to its own textual form ("2" beside 2, "None" beside None, "[1]" beside [1])
+                x = rng.choice(v)
+                v.insert(rng.randrange(len(v) + 1), str(x) if not isinstance(x, str) else [x])
             elif r < 0.8 and len(v) > 1:
                 i, j = rng.randrange(len(v)), rng.randrange(len(v))
                 v.insert(j, v.pop(i))
